@@ -56,6 +56,12 @@ namespace occa {
 
       macroSet expandedMacros;
       macroEndMap expandedMacroEnd;
+      // Macros whose expansion ended at the last processed token, and
+      //   the ones that ended at the ) of a macro call (they stay
+      //   guarded until the end of that call's expansion)
+      token_t *lastMacroEndToken;
+      macroVector lastMacroEnds;
+      macroVector pendingMacroEnds;
       //================================
 
       //---[ Macros and Directives ]----
@@ -147,6 +153,7 @@ namespace occa {
       void expandMacro(identifierToken &source,
                        macro_t &macro);
       void clearExpandedMacros(token_t *token);
+      void keepExpandedMacrosAfter(token_t *closingToken);
 
       void skipToNewline();
       void getLineTokens(tokenVector &lineTokens);
